@@ -129,10 +129,10 @@ end
 
 theorem LayerShape.clone {l : Layer} (h : LayerShape l) : LayerShape (cloneLayer l) := by
   refine ⟨?_, h.assertBase, ?_⟩
-  · intro f hf hb
+  · intro f hf hb he
     simp only [cloneLayer, List.mem_map] at hf
     obtain ⟨g, hg, rfl⟩ := hf
-    exact h.fieldBase g hg hb
+    exact h.fieldBase g hg hb he
   · intro f hf ht
     simp only [cloneLayer, List.mem_map] at hf
     obtain ⟨g, hg, rfl⟩ := hf
@@ -165,10 +165,10 @@ theorem LayerShape.mapFields {l : Layer} (h : LayerShape l) (g : Field → Field
     (hg : ∀ f, (g f).baseEnv = f.baseEnv ∧ (g f).expr = f.expr ∧ ((g f).thunk = none → f.thunk = none)) :
     LayerShape { l with fields := l.fields.map g } := by
   refine ⟨?_, h.assertBase, ?_⟩
-  · intro f hf hb
+  · intro f hf hb he
     simp only [List.mem_map] at hf
     obtain ⟨f0, hf0, rfl⟩ := hf
-    exact h.fieldBase f0 hf0 ((hg f0).1 ▸ hb)
+    exact h.fieldBase f0 hf0 ((hg f0).1 ▸ hb) ((hg f0).2.1 ▸ he)
   · intro f hf ht
     simp only [List.mem_map] at hf
     obtain ⟨f0, hf0, rfl⟩ := hf
@@ -201,5 +201,118 @@ theorem getElem?_of_map_static {ls ls' : List Layer} (h : ls'.map staticLayer = 
   rw [← h] at h1
   simp only [List.getElem?_map, Option.map_eq_some_iff] at h1
   exact h1
+
+/-! ### Field names: every visible name is found by `find_field` -/
+
+def layerNames (l : Layer) : List String := l.fields.map (·.name)
+def objNames (ob : Obj) : List String := ob.layers.flatMap layerNames
+
+theorem mem_insertSorted {n : String} {v : Vis} {acc : List (String × Vis)} {p : String × Vis}
+    (h : p ∈ insertSorted n v acc) : p = (n, v) ∨ p ∈ acc := by
+  induction acc with
+  | nil => simp [insertSorted] at h; exact .inl h
+  | cons q rest ih =>
+    obtain ⟨m, w⟩ := q
+    simp only [insertSorted] at h
+    split at h
+    · simp only [List.mem_cons] at h ⊢
+      rcases h with h | h | h
+      · exact .inl h
+      · exact .inr (.inl h)
+      · exact .inr (.inr h)
+    · simp only [List.mem_cons] at h ⊢
+      rcases h with h | h
+      · exact .inr (.inl h)
+      · rcases ih h with h' | h'
+        · exact .inl h'
+        · exact .inr (.inr h')
+
+theorem fieldsOrder_fields (N : List String) (fs : List Field) (acc : List (String × Vis))
+    (hacc : ∀ p ∈ acc, p.1 ∈ N) (hfs : ∀ f ∈ fs, f.name ∈ N) :
+    ∀ p ∈ fs.foldl (fun acc f =>
+      match acc.find? (fun p => p.1 == f.name) with
+      | none => insertSorted f.name f.vis acc
+      | some (_, .default) => acc.map (fun p => if p.1 == f.name then (p.1, f.vis) else p)
+      | some _ => acc) acc, p.1 ∈ N := by
+  induction fs generalizing acc with
+  | nil => exact hacc
+  | cons f rest ih =>
+    simp only [List.foldl_cons]
+    apply ih
+    · intro p hp
+      split at hp
+      · rcases mem_insertSorted hp with rfl | h
+        · exact hfs f (by simp)
+        · exact hacc p h
+      · obtain ⟨q, hq, rfl⟩ := List.mem_map.1 hp
+        split
+        · exact hacc q hq
+        · exact hacc q hq
+      · exact hacc p hp
+    · intro g hg; exact hfs g (by simp [hg])
+
+theorem fieldsOrder_layers (N : List String) (ls : List Layer) (acc : List (String × Vis))
+    (hacc : ∀ p ∈ acc, p.1 ∈ N) (hls : ∀ l ∈ ls, ∀ f ∈ l.fields, f.name ∈ N) :
+    ∀ p ∈ ls.foldl (fun acc layer => layer.fields.foldl (fun acc f =>
+      match acc.find? (fun p => p.1 == f.name) with
+      | none => insertSorted f.name f.vis acc
+      | some (_, .default) => acc.map (fun p => if p.1 == f.name then (p.1, f.vis) else p)
+      | some _ => acc) acc) acc, p.1 ∈ N := by
+  induction ls generalizing acc with
+  | nil => exact hacc
+  | cons l rest ih =>
+    simp only [List.foldl_cons]
+    apply ih
+    · exact fieldsOrder_fields N l.fields acc hacc (hls l (by simp))
+    · intro l' hl'; exact hls l' (by simp [hl'])
+
+/-- every visible field name is the name of a field of some layer -/
+theorem visible_mem_names {ob : Obj} {n : String} (h : n ∈ visibleFields ob) : n ∈ objNames ob := by
+  simp only [visibleFields, List.mem_filterMap] at h
+  obtain ⟨p, hp, hq⟩ := h
+  have := fieldsOrder_layers (objNames ob) ob.layers [] (by simp)
+    (by intro l hl f hf
+        simp only [objNames, List.mem_flatMap]
+        exact ⟨l, hl, List.mem_map.2 ⟨f, hf, rfl⟩⟩) p hp
+  split at hq
+  · cases hq
+  · cases hq; exact this
+
+theorem findField_go_isSome {ls : List Layer} {i : Nat} {n : String}
+    (h : n ∈ ls.flatMap layerNames) : (findField.go n ls i).isSome = true := by
+  induction ls generalizing i with
+  | nil => simp at h
+  | cons l rest ih =>
+    unfold findField.go
+    cases hf : l.fields.find? (fun f => f.name == n) with
+    | some g => rfl
+    | none =>
+      simp only [List.flatMap_cons, List.mem_append] at h
+      rcases h with h | h
+      · exfalso
+        obtain ⟨f, hf1, hf2⟩ := List.mem_map.1 h
+        have := List.find?_eq_none.1 hf f hf1
+        simp [hf2] at this
+      · exact ih h
+
+/-- … and `find_field` from the top layer finds it -/
+theorem findField_isSome {ob : Obj} {n : String} (h : n ∈ objNames ob) : (findField ob 0 n).isSome = true := by
+  unfold findField
+  simp only [List.drop_zero]
+  exact findField_go_isSome h
+
+theorem layerNames_static (l : Layer) : layerNames (staticLayer l) = layerNames l := by
+  simp [layerNames, staticLayer, staticField, List.map_map, Function.comp_def]
+
+/-- the names of an object never change -/
+theorem objNames_static {ob ob' : Obj} (h : ob'.layers.map staticLayer = ob.layers.map staticLayer) :
+    objNames ob' = objNames ob := by
+  have key : ∀ ls : List Layer, ls.flatMap layerNames = (ls.map staticLayer).flatMap layerNames := by
+    intro ls
+    induction ls with
+    | nil => rfl
+    | cons l rest ih => simp [List.flatMap_cons, layerNames_static, ih]
+  simp only [objNames]
+  rw [key ob'.layers, key ob.layers, h]
 
 end Rsj.Eval.Scope
